@@ -54,6 +54,7 @@ type FakeSrv struct {
 
 func NewFakeSrv(name string) *FakeSrv {
 	f := &FakeSrv{Net: simnet.NewConn(name)}
+	liveFakes = append(liveFakes, f)
 	f.Mon = NewConnMon(name, f.Net)
 	f.Mon.CheckReqMsize = true
 	f.Mon.Req.OnFrame = func(fr *FrameRec) {
